@@ -340,12 +340,13 @@ the names of the completed name-WAL blocks (first occurrence order is not observ
 As coded, FlushMetricNames does not create the segment directory: the recovered names are written only if the
 directory exists, i.e. if some block of that segment is on disk (rotated, or just flushed by RecoverWALData, which
 runs first); otherwise they are dropped (and the name WAL is deleted all the same). -/
-def sysNamesAfterRecovery (s : Sys) : List (Nat × Nat × List Nat) :=
-  let disk := sysDiskAfterRecovery s
+def sysNamesAfterRecoveryOn (disk : Disk) (s : Sys) : List (Nat × Nat × List Nat) :=
   s.shards.flatMap (fun st =>
     st.mnm.map (fun (seg, ns) => (st.shard, seg, ns))
       ++ (if st.nameWal.flatten.isEmpty || !(disk.any (fun kv => kv.1.1 == dec st.shard && kv.1.2.1 == st.seg)) then []
           else [(st.shard, st.seg, st.nameWal.flatten)]))
+
+def sysNamesAfterRecovery (s : Sys) : List (Nat × Nat × List Nat) := sysNamesAfterRecoveryOn (sysDiskAfterRecovery s) s
 
 end SigModel.WalRecover
 
@@ -358,5 +359,56 @@ def ingestMany (name : Nat) (ds : List Wal.Dp) (st : WState) : WState :=
   let st0 := if st.mNames.contains name then st
              else { st with mNames := st.mNames ++ [name], pendNames := st.pendNames ++ [name] }
   { st0 with cur := st0.cur ++ ds, buf := st0.buf ++ ds, segHasData := true, dpCount := st0.dpCount + ds.length }
+
+end SigModel.WalRecover
+
+/-! ### crash points INSIDE an operation (correspondence + counterexample theorems; no positive theorem)
+
+The steps are the ones whose completion is observable on disk; a crash is placed right after the `m`-th of them. -/
+namespace SigModel.WalRecover
+
+/-- rotateBlock interrupted after `m ≥ 1` completed steps:  flushBlock ; one DeleteWAL per WAL file of the block,
+in creation order (deleteDpWalFiles) ; initNewDpWal.  Only the disk matters afterwards (files, durable). -/
+def rotateBlockCrashed (m : Nat) (st : WState) : WState :=
+  let s1 := { st with durable := flushTo (shardStr st, st.seg, st.blkNum) st.cur st.durable }
+  if m = 0 then st
+  else if m ≤ st.files.length + 1 then { s1 with files := st.files.drop (m - 1) }
+  else rotateBlock st
+
+/-- one pass of timeBasedMetricsFlush that dies after `m` completed steps of rotateBlock (runs to its end when there
+are fewer steps) -/
+def blockRotateCrash (m : Nat) (st : WState) : WState :=
+  if st.cur.isEmpty then st else rotateBlockCrashed m st
+
+inductive RecAction where
+  | delete (name : Name)                 -- deleteWalFile completed
+  | flush (k : Key) (dps : List Wal.Dp)  -- flushBlock completed
+deriving Repr
+
+/-- RecoverWALData as a sequence of steps: per group, every file is deleted right after its replay into MEMORY,
+and only then the block is flushed -/
+def recoverActions (d : RawDir) : List RecAction :=
+  (groups d).flatMap (fun g =>
+    g.files.map (fun f => RecAction.delete f.1)
+      ++ (if (groupDps g).isEmpty then [] else [RecAction.flush (g.info.mId, g.info.seg, g.info.blk) (groupDps g)]))
+
+def applyRecAction (s : RawDir × Disk) : RecAction → RawDir × Disk
+  | .delete n => (s.1.filter (fun f => f.1 != n), s.2)
+  | .flush k v => (s.1, flushTo k v s.2)
+
+/-- the WAL directory and the block files after RecoverWALData died right after its `m`-th step -/
+def recoverCrashed (m : Nat) (d : RawDir) (disk : Disk) : RawDir × Disk :=
+  ((recoverActions d).take m).foldl applyRecAction (d, disk)
+
+/-- block files after: crash of the writer, a first restart whose RecoverWALData dies after `m` steps, a second
+restart that recovers completely -/
+def diskAfterCrashedRecovery (m : Nat) (d : RawDir) (disk : Disk) : Disk :=
+  let s := recoverCrashed m d disk
+  applyFlushes s.2 (recover s.1)
+
+/-- Wal.Write (meta WAL) = truncate ; encode ; writeBlockToFile.  Died right after truncate: the file holds the
+version byte only. -/
+def metaFlushCrash (m : Nat) (s : Sys) : Sys :=
+  if m = 1 then { s with metaWal := [] } else { s with metaWal := s.shards.map metaOf }
 
 end SigModel.WalRecover
